@@ -1562,9 +1562,22 @@ func main() {
 	defer os.RemoveAll(base)
 	w := &world{c: c, or: or, rng: hx.NewRNG(c.Seed), base: base}
 	start := time.Now()
-	rule := "every crash image (record cut / corrupted past the last synced offset, new empty file, each cleanup sub-step, any subset of obsolete files removed, torn EOF trailer) of generated histories is reopened with the real store; LoadAllEntries must satisfy recover_ok (the theorem's predicate) and equal the extracted model; live return codes, log files, watermark and LoadAllEntries are compared with the model"
+	rule := "byte level: the log files the real store / wal.Manager write equal the model's encode byte for byte, every chosen cut and bit flip of them is read back by the real reader (and the real store) exactly as the model's decode says, the Gallina CRC-32C equals hash/crc32; record level: every crash image (record cut / corrupted past the last synced offset, new empty file, each cleanup sub-step, any subset of obsolete files removed, torn EOF trailer) of generated histories is reopened with the real store; LoadAllEntries must satisfy recover_ok (the theorem's predicate) and equal the extracted model; live return codes, log files, watermark and LoadAllEntries are compared with the model"
 	if c.ReplayIn != "" {
+		if raw, err := os.ReadFile(c.ReplayIn); err == nil && strings.Contains(string(raw), "\"frame\"") {
+			var fr frameReplay
+			c.LoadReplay(&fr)
+			(&frame{c: c, or: or, rng: w.rng.Fork(0xF4A3E), base: base, budget: 1 << 40}).replay(fr)
+			os.RemoveAll(base)
+			c.Finish(rule)
+		}
 		w.replay()
+		os.RemoveAll(base)
+		c.Finish(rule)
+	}
+	// byte level first: record framing of the log files (Frame.v) against the real writer and reader
+	runFrame(c, or, w.rng.Fork(0xF4A3E), base)
+	if os.Getenv("VERIF_C14_ONLY") == "frame" { // development aid: the byte-level part alone
 		os.RemoveAll(base)
 		c.Finish(rule)
 	}
